@@ -290,3 +290,134 @@ Theorem C07_tcp_capacity_needed :
   map up_freq (snd (tcp_run [] 1 [] (fk tcp_event ckey (tcp_key []) Uptime.key_eqb tcp_kA tcp_trace))) = [None; Some 1000%Z].
 Proof. exact tcp_capacity_needed. Qed.
 Print Assumptions C07_tcp_capacity_needed.
+
+(* ====================================================================================================
+   CONCRETE INSTANCE 3: the packet-level model of the sequential HTTP analyzer (Model/HttpAnalyzer.v:
+   packet_parser framing -> pnet views -> http_process.rs process_tcp_packet over the TtlCache model of
+   Base/Cache.v -> the two parsers).  Key = the CONNECTION: the 4-tuple irrespective of direction
+   (http_key = norm_key of FlowKey; a packet finds its flow under its own key or under the reversed one, both
+   directions share one slot).  Parametric in the parsers parse_req / parse_resp : bytes -> option _ : they are
+   FUNCTIONS OF THE BYTES.  In the code the HPACK decoder inside HttpProcessors is shared between connections but
+   rebuilt at the start of every parse (fix c544740); that the real parse functions are pure is tied by C16's
+   "a reused parser answers like a fresh one" oracle and C01's poisoning histories, it is an assumption here.
+   The table carries its capacity (c_cap).  `http_within_capacityb st tr` = a packet that would open a flow
+   (neither direction tracked) arrives only while the table has a free slot.  TTL expiry (60 s) is outside.
+   Proofs: Proofs/HttpPlan.v (the step as a plan of cache operations on the two directed keys; locality),
+   Proofs/HttpKeyed.v, Proofs/HttpCensus.v, Proofs/HttpExamples.v.  Tie to the code: kind H of Extract/EC07.v. *)
+From HN Require Import Base.Cache Base.Tcp Model.HttpFlow Model.HttpAnalyzer Proofs.HttpPlan Proofs.HttpKeyed Proofs.HttpCensus Proofs.HttpExamples.
+From HN Require Model.HttpRecog.
+
+Theorem C07_http_is_keyed : forall (Req Resp : Type) (parse_req : bytes -> option Req) (parse_resp : bytes -> option Resp)
+    (tr : list bytes) (st : http_state),
+  http_within_capacityb parse_req parse_resp st tr = true ->
+  http_results parse_req parse_resp st tr
+  = snd (Keyed.run bytes fkey ents (@http_out Req Resp) http_key fkey_eqb (http_lstep parse_req parse_resp) (http_abs st) tr).
+Proof. exact @http_is_keyed. Qed.
+Check C07_http_is_keyed : forall (Req Resp : Type) (parse_req : bytes -> option Req) (parse_resp : bytes -> option Resp)
+    (tr : list bytes) (st : http_state),
+  http_within_capacityb parse_req parse_resp st tr = true ->
+  http_results parse_req parse_resp st tr
+  = snd (Keyed.run bytes fkey ents (@http_out Req Resp) http_key fkey_eqb (http_lstep parse_req parse_resp) (http_abs st) tr).
+Print Assumptions C07_http_is_keyed.
+
+Theorem C07_http_isolation : forall (Req Resp : Type) (parse_req : bytes -> option Req) (parse_resp : bytes -> option Resp)
+    (tr : list bytes) (st : http_state) (K : fkey),
+  http_within_capacityb parse_req parse_resp st tr = true ->
+  http_within_capacityb parse_req parse_resp st (fk bytes fkey http_key fkey_eqb K tr) = true ->
+  proj fkey (@http_out Req Resp) fkey_eqb K (http_results parse_req parse_resp st tr)
+    = proj fkey (@http_out Req Resp) fkey_eqb K (http_results parse_req parse_resp st (fk bytes fkey http_key fkey_eqb K tr))
+  /\ proj fkey (@http_out Req Resp) fkey_eqb K (http_results parse_req parse_resp st tr)
+    = snd (HttpAnalyzer.http_run parse_req parse_resp st (fk bytes fkey http_key fkey_eqb K tr)).
+Proof. exact @http_isolation. Qed.
+Check C07_http_isolation : forall (Req Resp : Type) (parse_req : bytes -> option Req) (parse_resp : bytes -> option Resp)
+    (tr : list bytes) (st : http_state) (K : fkey),
+  http_within_capacityb parse_req parse_resp st tr = true ->
+  http_within_capacityb parse_req parse_resp st (fk bytes fkey http_key fkey_eqb K tr) = true ->
+  proj fkey (@http_out Req Resp) fkey_eqb K (http_results parse_req parse_resp st tr)
+    = proj fkey (@http_out Req Resp) fkey_eqb K (http_results parse_req parse_resp st (fk bytes fkey http_key fkey_eqb K tr))
+  /\ proj fkey (@http_out Req Resp) fkey_eqb K (http_results parse_req parse_resp st tr)
+    = snd (HttpAnalyzer.http_run parse_req parse_resp st (fk bytes fkey http_key fkey_eqb K tr)).
+Print Assumptions C07_http_isolation.
+
+Theorem C07_http_interleaving_invariant : forall (Req Resp : Type) (parse_req : bytes -> option Req) (parse_resp : bytes -> option Resp)
+    (tr tr' : list bytes) (st : http_state),
+  http_within_capacityb parse_req parse_resp st tr = true -> http_within_capacityb parse_req parse_resp st tr' = true ->
+  (forall K, fk bytes fkey http_key fkey_eqb K tr = fk bytes fkey http_key fkey_eqb K tr') ->
+  forall K, proj fkey (@http_out Req Resp) fkey_eqb K (http_results parse_req parse_resp st tr)
+          = proj fkey (@http_out Req Resp) fkey_eqb K (http_results parse_req parse_resp st tr').
+Proof. exact @http_interleaving_invariant. Qed.
+Check C07_http_interleaving_invariant : forall (Req Resp : Type) (parse_req : bytes -> option Req) (parse_resp : bytes -> option Resp)
+    (tr tr' : list bytes) (st : http_state),
+  http_within_capacityb parse_req parse_resp st tr = true -> http_within_capacityb parse_req parse_resp st tr' = true ->
+  (forall K, fk bytes fkey http_key fkey_eqb K tr = fk bytes fkey http_key fkey_eqb K tr') ->
+  forall K, proj fkey (@http_out Req Resp) fkey_eqb K (http_results parse_req parse_resp st tr)
+          = proj fkey (@http_out Req Resp) fkey_eqb K (http_results parse_req parse_resp st tr').
+Print Assumptions C07_http_interleaving_invariant.
+
+Theorem C07_http_no_disable : forall (Req Resp : Type) (parse_req : bytes -> option Req) (parse_resp : bytes -> option Resp)
+    (h probe : list bytes) (st : http_state) (K : fkey),
+  http_within_capacityb parse_req parse_resp st (h ++ probe) = true -> http_within_capacityb parse_req parse_resp st probe = true ->
+  (forall f, In f h -> http_key f <> K) ->
+  proj fkey (@http_out Req Resp) fkey_eqb K (http_results parse_req parse_resp st (h ++ probe))
+  = proj fkey (@http_out Req Resp) fkey_eqb K (http_results parse_req parse_resp st probe).
+Proof. exact @http_no_disable. Qed.
+Check C07_http_no_disable : forall (Req Resp : Type) (parse_req : bytes -> option Req) (parse_resp : bytes -> option Resp)
+    (h probe : list bytes) (st : http_state) (K : fkey),
+  http_within_capacityb parse_req parse_resp st (h ++ probe) = true -> http_within_capacityb parse_req parse_resp st probe = true ->
+  (forall f, In f h -> http_key f <> K) ->
+  proj fkey (@http_out Req Resp) fkey_eqb K (http_results parse_req parse_resp st (h ++ probe))
+  = proj fkey (@http_out Req Resp) fkey_eqb K (http_results parse_req parse_resp st probe).
+Print Assumptions C07_http_no_disable.
+
+Theorem C07_http_capacity_by_count : forall (Req Resp : Type) (parse_req : bytes -> option Req) (parse_resp : bytes -> option Resp)
+    (tr : list bytes) (st : http_state) (K : fkey),
+  cache_len st + TlsHello.lenN tr <= c_cap st ->
+  http_within_capacityb parse_req parse_resp st tr = true /\
+  http_within_capacityb parse_req parse_resp st (fk bytes fkey http_key fkey_eqb K tr) = true.
+Proof. exact @http_capacity_by_count. Qed.
+Print Assumptions C07_http_capacity_by_count.
+
+(* census of connections: every connection in the table (at most one entry each) or opened by the trace is one of
+   at most c_cap connections U *)
+Theorem C07_http_capacity_by_census : forall (Req Resp : Type) (parse_req : bytes -> option Req) (parse_resp : bytes -> option Resp)
+    (U : list fkey) (tr : list bytes) (st : http_state) (K : fkey),
+  NoDup (hkeys st) -> incl (hkeys st) U ->
+  (forall f, In f tr -> http_tracked f = true -> In (http_key f) U) ->
+  TlsHello.lenN U <= c_cap st ->
+  http_within_capacityb parse_req parse_resp st tr = true /\
+  http_within_capacityb parse_req parse_resp st (fk bytes fkey http_key fkey_eqb K tr) = true.
+Proof. exact @http_capacity_by_census. Qed.
+Print Assumptions C07_http_capacity_by_census.
+
+(* the key is the connection: two directed keys have the same normal form iff equal or each other's reverse *)
+Theorem C07_http_key_is_connection : forall k k' : fkey,
+  (norm_key k = norm_key k' -> k' = k \/ k' = flip_key k) /\ norm_key (flip_key k) = norm_key k.
+Proof. intros k k'. split; [apply norm_eq_cases | apply norm_flip]. Qed.
+Print Assumptions C07_http_key_is_connection.
+
+(* satisfiable: two sibling HTTP/1.1 exchanges (clients 10.0.0.1 / 10.0.0.2, same ports, same server) with the
+   HTTP/1 recogniser of Model/HttpRecog.v as parsers; A's request in two segments around B's, A's response in the
+   opposite direction: A is told  -, -, its request, its response *)
+Example C07_http_example :
+  http_within_capacityb HttpRecog.recog_req HttpRecog.recog_resp (cache_new 8) http_trace = true /\
+  http_within_capacityb HttpRecog.recog_req HttpRecog.recog_resp (cache_new 8) (fk bytes fkey http_key fkey_eqb http_kA http_trace) = true /\
+  fk bytes fkey http_key fkey_eqb http_kA http_trace = [hA_syn; hA_r1; hA_r2; hA_resp] /\
+  fkey_eqb (http_key hB_syn) http_kA = false /\
+  map hkind (proj fkey (@http_out bytes bytes) fkey_eqb http_kA (http_results HttpRecog.recog_req HttpRecog.recog_resp (cache_new 8) http_trace)) = [0; 0; 1; 2]%N /\
+  map hkind (snd (HttpAnalyzer.http_run HttpRecog.recog_req HttpRecog.recog_resp (cache_new 8) http_trace)) = [0; 0; 0; 1; 1; 2]%N /\
+  map (@http1_out_line) (snd (HttpAnalyzer.http_run HttpRecog.recog_req HttpRecog.recog_resp (cache_new 8) [hA_syn; hA_r1; hA_r2; hA_resp]))
+  = [bs "-"; bs "-"; bs "Q.474554.2f.11.486f7374=61"; bs "R.11.200.536572766572=78"].
+Proof. exact http_example. Qed.
+Example C07_http_census_example :
+  let U := [http_kA; http_key hB_syn] in
+  NoDup (hkeys (cache_new 2)) /\ incl (hkeys (cache_new 2)) U /\
+  (forall f, In f http_trace -> http_tracked f = true -> In (http_key f) U) /\ TlsHello.lenN U <= c_cap (@cache_new fkey tcpflow 2).
+Proof. exact http_census_example. Qed.
+
+(* the capacity hypothesis cannot be dropped: with a table of one flow B's SYN evicts A's flow and A is never reported *)
+Theorem C07_http_capacity_needed :
+  http_within_capacityb HttpRecog.recog_req HttpRecog.recog_resp (cache_new 1) http_trace = false /\
+  map hkind (proj fkey (@http_out bytes bytes) fkey_eqb http_kA (http_results HttpRecog.recog_req HttpRecog.recog_resp (cache_new 1) http_trace)) = [0; 0; 0; 0]%N /\
+  map hkind (snd (HttpAnalyzer.http_run HttpRecog.recog_req HttpRecog.recog_resp (cache_new 1) (fk bytes fkey http_key fkey_eqb http_kA http_trace))) = [0; 0; 1; 2]%N.
+Proof. exact http_capacity_needed. Qed.
+Print Assumptions C07_http_capacity_needed.
